@@ -87,6 +87,8 @@ void World::fire_next() {
 Ev& World::log(Ev::Kind k, int a, int b, int64_t c, std::string s) {
     Ev e; e.kind = k; e.seq = next_seq(); e.t = now(); e.a = a; e.b = b; e.c = c; e.s = std::move(s);
     h.ev.push_back(std::move(e));
+    static const bool trace = getenv("VERIF_TRACE") != nullptr;
+    if (trace) { const Ev& x = h.ev.back(); fprintf(stderr, "%6llu %12.6f %s a=%d b=%d c=%lld %s\n", (unsigned long long)x.seq, x.t / 1e9, ev_name(x.kind), x.a, x.b, (long long)x.c, x.s.c_str()); }
     return h.ev.back();
 }
 
